@@ -145,7 +145,7 @@ def add_batch(u):
         u.fn(B, 'queue_packet', impl='BatchSender', sub='batch', ret='r',
              requires=['old(self).wf()', 'old(self).queue.len() < 0x7fff_fff0'],
              ensures=[
-                 'final(self).wf()',
+                 C('C01+C02.batch.queue_packet.keeps_parallel_vectors_in_step', 'final(self).wf()'),
                  C('C01.batch.queue_packet.fifo_append', '''final(self).queue.len() == old(self).queue.len() + 1
             && (forall|i: int| 0 <= i < old(self).queue.len() ==> #[trigger] final(self).view_at(i) == old(self).view_at(i))
             && final(self).view_at(old(self).queue.len() as int) == (data@, seq, current_time_ms)'''),
@@ -153,7 +153,7 @@ def add_batch(u):
                  C('C01.batch.queue_packet.flush_at_threshold', 'r == (final(self).queue.len() >= spec_batch_size(&old(self).regime))'),
              ]),
         u.fn(B, 'set_regime', impl='BatchSender', sub='batch', requires=['old(self).wf()'], ensures=[
-            'final(self).wf()', 'final(self).regime == regime',
+            C('C01+C02.batch.set_regime.keeps_parallel_vectors_in_step', 'final(self).wf()'), 'final(self).regime == regime',
             C('C01.batch.set_regime.keeps_queue', 'final(self).queue == old(self).queue && final(self).sequences == old(self).sequences && final(self).queue_times == old(self).queue_times && final(self).last_flush_ms == old(self).last_flush_ms')]),
         u.fn(B, 'needs_time_flush', impl='BatchSender', sub='batch', ret='r', ensures=[
             C('C01.batch.needs_time_flush.due_after_15ms', 'r == (self.queue.len() > 0 && sub_sat(now_ms, self.last_flush_ms) >= 15)')]),
@@ -161,14 +161,14 @@ def add_batch(u):
         u.fn(B, 'queued_count', impl='BatchSender', sub='batch', ret='r', requires=['self.wf()'],
              ensures=['r == self.queue.len()', '0 <= r']),
         u.fn(B, 'drain', impl='BatchSender', sub='batch', ret='r', pre_rewrite=[zip3], requires=['old(self).wf()'], ensures=[
-            'final(self).wf()',
+            C('C01+C02.batch.drain.keeps_parallel_vectors_in_step', 'final(self).wf()'),
             C('C01.batch.drain.empties', 'final(self).queue.len() == 0'),
             'final(self).last_flush_ms == now_ms', 'final(self).regime == old(self).regime',
             C('C01.batch.drain.returns_queue_in_order', '''r.len() == old(self).queue.len()
             && (forall|i: int| 0 <= i < r.len() ==> (#[trigger] r[i]).0@ == old(self).queue[i]@ && r[i].1 == old(self).sequences[i] && r[i].2 == old(self).queue_times[i])'''),
         ]),
         u.fn(B, 'reset', impl='BatchSender', sub='batch', ensures=[
-            'final(self).wf()', C('C01.batch.reset.empties', 'final(self).queue.len() == 0'),
+            C('C01+C02.batch.reset.keeps_parallel_vectors_in_step', 'final(self).wf()'), C('C01.batch.reset.empties', 'final(self).queue.len() == 0'),
             'final(self).regime == old(self).regime', 'final(self).last_flush_ms == 0']),
     ]))
 
